@@ -368,7 +368,10 @@ class Run:
                 t.__exit__(None, None, None)
                 return "end"
             tg = a[1]
-            o = self.orders[int(tg[1:])] if tg[0] == "o" else self.trades[int(tg[1:])].orders[-1]
+            try:
+                o = self.orders[int(tg[1:])] if tg[0] == "o" else self.trades[int(tg[1:])].orders[-1]
+            except (IndexError, KeyError):
+                return "no-such-order"
             t = state.get("t")
             if k == "place":
                 r = (t.place_order(o, a[2], True, a[3]) if t else market.place_order(o, market_version=a[2], force=a[3]))
@@ -574,6 +577,16 @@ def profit_preimage(o):
     return None
 
 
+def reduction_tie_possible(sc):
+    import simgen
+    afs = {frac(r["af"]) for m in sc["markets"] for u in m["updates"] for r in u["runners"] if r.get("status") == "REMOVED" and r.get("af")}
+    for af in afs:
+        for p in simgen.LADDER + simgen.DEC_LADDER:
+            if common.is_tie2(frac(p) * (1 - af / 100)):
+                return True
+    return False
+
+
 def tie_explains(sc, a, b, run=None):
     """Are the two canonical lines equal except for penny differences that an exact half-penny tie
     explains?  (float `round` vs exact half-even).  Only two places are accepted:
@@ -622,6 +635,10 @@ def tie_explains(sc, a, b, run=None):
                 continue
             return False
         fx, fy = x.split(":"), y.split(":")
+        if len(fx) == len(fy) == 22 and fx[0] == fy[0] and all(
+                p == q or tokens_close(p, q) for i, (p, q) in enumerate(zip(fx, fy)) if i not in (6, 13)) \
+                and tokens_close(fx[6], fy[6], Fraction(101, 10000)) and reduction_tie_possible(sc):
+            return True     # a reduced fragment price at an exact half-penny tie (p x (1 - af/100))
         if run is not None and len(fx) == len(fy) == 22 and fx[0] == fy[0] and all(
                 p == q or tokens_close(p, q) for i, (p, q) in enumerate(zip(fx, fy)) if i != 6):
             # an order whose only difference is the average price: accept a penny at an exact tie
